@@ -91,7 +91,11 @@ def ctrl_rules(ctx, ob1):
                 good = good and len(wraps) == 1 and key(Op("==", (Sym(ptr), Const(depth - 1)))) in c.guard_keys(wraps[0], False) and \
                     all("~" + key(Op("==", (Sym(ptr), Const(depth - 1)))) in c.guard_keys(l, False) for l in incs)
             ob1.instance("%s pointer %s" % (tag, ptr), [str(l) for l in ds])
-            if not good:
+            if not good and ds and all(l.domain == "comb" and ptr not in support(l.value) for l in ds) and \
+                    any(support(l.value) - {"write_address", "read_address", "level", "write", "read", "replace"} for l in ds):
+                ob1.unknown("%s: %s is not a register of its own but derived (%s): the pointer arithmetic lives elsewhere and is not decided by this rule" %
+                            (tag, ptr, [str(l) for l in ds][:2]))
+            elif not good:
                 ob1.refute("pointer:%s:%d" % (ptr, depth), "%s does not advance by one under `%s` and wrap at depth-1 = %d: %s" % (ptr, strobe, depth - 1, [str(l) for l in ds]),
                            ds[0].loc if ds else None)
     wv = elab(ctx, FF, "_LiteDRAMFIFOWriter", kwargs={"data_width": Sym("data_width"), "port": pobj("port"), "ctrl": pobj("ctrl"), "fifo_depth": Sym("fd")}, hasattrs=NATIVE)
@@ -132,7 +136,10 @@ def ctrl_rules(ctx, ob1):
     for v_, tgt, ptr in ((wv, W + ".sink.address", "ctrl.write_address"), (rv, R + ".sink.address", "ctrl.read_address")):
         a = _sd(v_, tgt)
         ob1.instance(tgt, key(a) if a is not None else None)
-        if a is None or not lin_eq(a, Op("+", (Sym("ctrl.base"), Sym(ptr)))):
+        known_ = {"ctrl.base", "ctrl.write_address", "ctrl.read_address", "ctrl.level", "ctrl.writable", "ctrl.readable"}
+        if a is not None and not lin_eq(a, Op("+", (Sym("ctrl.base"), Sym(ptr)))) and (support(a) - known_):
+            ob1.unknown("%s is %s: built from %s, a signal this rule does not know as base / pointer - not decided" % (tgt, key(a), sorted(support(a) - known_)))
+        elif a is None or not lin_eq(a, Op("+", (Sym("ctrl.base"), Sym(ptr)))):
             ob1.refute("address:%s" % tgt, "%s is %s, expected ctrl.base + %s" % (tgt, key(a) if a is not None else None, ptr), None)
     d = _sd(wv, W + ".sink.data")
     if d is None or key(d) != "sink.data":
